@@ -14,7 +14,14 @@ C2S : the REAL SelectorThread (real threads, real socketpairs) runs seeded rando
       steps, all invariants evaluated at every step).  A run that does not finish within the
       watchdog, an exception escaping Tornado code on either thread, or a rejected log is a
       violation.  Timing never decides the order of events (harness lock), only "hang".
-S2C : not done (the design lists it as a stretch); see notes/selthread.md.
+S2C : TLC `-simulate` behaviours of the same specification (full states; with and without
+      shutdown steps) are FORCED on the real threads (harness/selthread_s2c.py): every thread parks
+      at its shim point before each event, the controller releases the thread whose step is next,
+      and the logged event (name, thread, arguments, `_select_args` snapshot, select result, ...)
+      is compared with the one the specification step implies.  Environment choices (readiness,
+      legal select results and their order, when the loop delivers `_handle_select`, what callbacks
+      do) are resolved by the behaviour.  The complete logs (forced prefix + free-mode epilogue)
+      also go through the TLC trace validation.
 
 Binding demonstrated during development (scratch worktree, see notes/selthread.md): dropping
 _wake_selector() from add_writer / remove_reader, dropping notify() in close(), running
@@ -55,8 +62,61 @@ def check_runs(ctx, runs, nf, label="c2s"):
     if traces:
         ctx.validate(SPEC, "Trace_SelectorThread", "Trace_SelectorThread.cfg", traces,
                      overrides={"NF": nf}, label=label, sig_fn=_sig_of,
-                     shards=max(1, min(8, len(traces) // 10)))
+                     shards=max(1, min(8, len(traces) // 200)))   # JVM start dominates small shards
     return traces
+
+
+def sim_behaviours(ctx, num, depth, hows, seed):
+    """TLC -simulate walks of SelectorThread.tla as lists of (action, state, next state)."""
+    import os
+    import shutil
+    from harness import tlc
+    spec_dir = os.path.join(framework.VERIF, "specs", SPEC)
+    cfgp = framework.make_cfg(os.path.join(spec_dir, "Sim_SelectorThread.cfg"), {"Hows": hows}, ctx.scratch,
+                              "Sim_%d.cfg" % seed)
+    d = os.path.join(ctx.scratch, "sim_%d" % seed)
+    os.makedirs(d)
+    r = tlc.run(spec_dir, "SelectorThread", cfgp, workers=1, timeout=ctx.pick(300, 900),
+                simulate={"num": num, "file": os.path.join(d, "tr")}, depth=depth, seed=seed)
+    if not r.ok:
+        raise framework.Machinery("simulation reported %s" % r.violation)
+    out = []
+    for fn in sorted(os.listdir(d)):
+        beh = tlc.read_sim_file(os.path.join(d, fn))
+        steps = []
+        for i in range(1, len(beh)):
+            st = dict(beh[i - 1][1])
+            st["_nf"] = 2
+            steps.append((beh[i][0], st, beh[i][1]))
+        if steps:
+            out.append(steps)
+    shutil.rmtree(d, ignore_errors=True)
+    ctx.cov["checker_cmd"].append("tlc -simulate num=%d -depth %d -config Sim_SelectorThread.cfg SelectorThread (Hows=%s)"
+                                  % (num, depth, hows))
+    return out
+
+
+def force_behaviours(ctx, behs, base_id):
+    """spec -> code: force each behaviour on the real threads; returns the recorded runs."""
+    from harness import selthread_s2c as s2c
+    jobs = [(base_id + i, 2, steps) for i, steps in enumerate(behs)]
+    results = framework.pool_map(s2c.force, jobs)
+    keys = []
+    for (tid, nf, steps), r in zip(jobs, results):
+        keys.append(hashlib.sha1(json.dumps([a for a, _, _ in steps]).encode()).hexdigest())
+        dv = r.get("divergence")
+        if dv:
+            exp = dv.get("exp")
+            ctx.violation({"kind": "s2c", "div": dv["kind"], "act": dv["act"],
+                           "exp": exp.get("a") if isinstance(exp, dict) else exp},
+                          {"divergence": dv, "steps": [[a, s, t] for a, s, t in steps[:dv["step"] + 1]],
+                           "log_tail": r["ev"][max(0, r["forced_events"] - 12):r["forced_events"] + 2]})
+    ctx.cov["traces_validated_against_impl"] += len(jobs)
+    ctx.add_eval(len(jobs), distinct_keys=keys,
+                 samples=[{"kind": "s2c", "actions": [a for a, _, _ in behs[0]][:40], "log": results[0]["ev"][:12]}]
+                 if behs else ())
+    ctx.note("forced_steps", ctx.cov.get("forced_steps", 0) + sum(len(b) for b in behs))
+    return results
 
 
 def run(ctx):
@@ -74,7 +134,13 @@ def run(ctx):
     nf = 3
     n = ctx.pick(60, 2000)
     runs = record_runs(ctx, n, nf, nops=12, nenv=8, base=ctx.seed * 1000003 + 17)
-    traces = check_runs(ctx, runs, nf)
+    # 3. spec -> code: TLC behaviours forced on the real threads
+    k = ctx.pick(150, 3000)
+    depth = ctx.pick(100, 160)
+    behs = sim_behaviours(ctx, k, depth, '{"close", "atexit"}', ctx.seed + 11)
+    behs += sim_behaviours(ctx, k, depth, "{}", ctx.seed + 12)
+    forced = force_behaviours(ctx, behs, 100000)
+    traces = check_runs(ctx, runs + forced, nf)
     evs = sum(len(t["ev"]) for t in traces)
     ctx.note("recorded_events", evs)
     ctx.cov["trusted_base"] = ["TLC/SANY 1.8.0", "PlusCal translator (pcal.trans 1.12)",
@@ -84,11 +150,20 @@ def run(ctx):
                            "the model is exhaustive within its constants")
     ctx.cov["rule"] = ("MC: all interleavings of the three processes for 2 fds, bounded registration changes and "
                        "readiness events, both shutdown paths; C2S: %d recorded runs of the real SelectorThread "
-                       "(3 fds, real threads) each validated event by event by TLC; distinct = distinct event logs" % n)
+                       "(3 fds, real threads) each validated event by event by TLC; S2C: %d TLC simulation "
+                       "behaviours (depth <= %d, 2 fds) forced step by step on the real threads; distinct = distinct "
+                       "event logs / action sequences" % (n, len(behs), depth))
 
 
 def replay(ctx, rec):
     d = rec["detail"]
+    if "steps" in d:
+        from harness import selthread_s2c as s2c
+        steps = [(a, dict(s_, _nf=2), t) for a, s_, t in d["steps"]]
+        r = s2c.force((1, 2, steps))
+        print("replay:", ("diverges " + json.dumps(canon(r["divergence"]))[:1500]) if r["divergence"]
+              else "the real threads follow the behaviour")
+        return 1 if r["divergence"] or r["errors"] else 0
     if "trace" in d and d["trace"].get("ev"):
         t = d["trace"]
         v = ctx.validate(SPEC, "Trace_SelectorThread", "Trace_SelectorThread.cfg", [t],
